@@ -56,6 +56,68 @@ def deep_fresh(op):
     return op.__class__(*args, **kwargs)
 
 
+def sub_handle(op):
+    """The first square sub-operator (a second handle on part of the same object graph), or None."""
+    from linear_operator.operators import LinearOperator
+    for a in op._args:
+        if isinstance(a, LinearOperator) and a.dim() >= 2 and a.shape[-1] == a.shape[-2] and a.shape[-1] >= 2:
+            return a
+    return None
+
+
+def _tensors_of(v, out, depth=0):
+    from linear_operator.operators import LinearOperator
+    if depth > 6:
+        return
+    if torch.is_tensor(v):
+        out.append(v)
+    elif isinstance(v, LinearOperator):
+        for a in list(v._args) + list(v._kwargs.values()):
+            _tensors_of(a, out, depth + 1)
+    elif isinstance(v, (tuple, list)) and not isinstance(v, torch.Size):
+        for a in v:
+            _tensors_of(a, out, depth + 1)
+
+
+ADHOC = ("_q_cache", "_r_cache", "_precond_lt", "_precond_logdet_cache", "_piv_chol_self", "_noise", "_default_preconditioner_cache")
+
+
+def snapshot_caches(ops):
+    """{(id(owner), key): (owner, value, [tensors], [clones])} for every memoised entry (and ad-hoc cache attribute) of the
+    given operators and, recursively, of their sub-operators."""
+    from linear_operator.operators import LinearOperator
+    snap, seen = {}, set()
+
+    def walk(o, depth):
+        if id(o) in seen or depth > 5:
+            return
+        seen.add(id(o))
+        entries = [(canon_key(k), v) for k, v in list(getattr(o, "_memoize_cache", {}).items())]
+        entries += [("attr:" + a, o.__dict__[a]) for a in ADHOC if o.__dict__.get(a, None) is not None]
+        for ck, v in entries:
+            ts = []
+            _tensors_of(v, ts)
+            snap[(id(o), ck)] = (o, v, ts, [t.detach().clone() for t in ts])
+        for a in list(o._args) + list(o._kwargs.values()):
+            if isinstance(a, LinearOperator):
+                walk(a, depth + 1)
+    for o in ops:
+        walk(o, 0)
+    return snap
+
+
+def mutated_entries(old, new):
+    """Entries that existed before with the same value object and whose tensors are no longer bit-identical."""
+    bad = []
+    for k, (o, v, ts, cl) in old.items():
+        if k in new and new[k][1] is v:
+            for t, c in zip(ts, cl):
+                if t.shape != c.shape or not torch.equal(t.detach(), c):
+                    bad.append((type(o).__name__, k[1], (t.detach() - c).abs().max().item() if t.shape == c.shape else float("nan")))
+                    break
+    return bad
+
+
 def canon_key(k):
     """`_memoize_cache` key -> canonical string  name|args|kwargs  (bare names:  !name)."""
     def arg(a):
@@ -172,8 +234,11 @@ def catalogue(rng, tier):
     def add(cls, make, profile, pd=True, tags=()):
         with warnings.catch_warnings():
             warnings.simplefilter("ignore")
-            truth = make().to_dense().detach().clone()
-        specs.append(Spec(cls, make, truth, profile, pd, tags))
+            o_ = make()
+            truth = o_.to_dense().detach().clone()
+        sp = Spec(cls, make, truth, profile, pd, tags)
+        sp.has_sub = pd and sub_handle(o_) is not None
+        specs.append(sp)
 
     n = rng.choice([5, 6])
     A = rand_pd(rng, n)
@@ -186,6 +251,21 @@ def catalogue(rng, tier):
     add("Diag[b=(2,)|n=4]", lambda d=db: O.DiagLinearOperator(d.clone()), "diag")
     K1, K2 = rand_pd(rng, 2, lo=1.0, hi=1.6), rand_pd(rng, 3, lo=1.0, hi=2.0)
     add("Kronecker[2x3]", lambda a=K1, b=K2: O.KroneckerProductLinearOperator(O.DenseLinearOperator(a.clone()), O.DenseLinearOperator(b.clone())), "kron")
+    d6 = 0.5 + torch.rand(6, generator=_gen(rng), dtype=F64)
+    dk2, dk3 = 0.6 + torch.rand(2, generator=_gen(rng), dtype=F64), 0.6 + torch.rand(3, generator=_gen(rng), dtype=F64)
+    J1, J2 = rand_pd(rng, 2, lo=0.5, hi=0.9), rand_pd(rng, 3, lo=0.5, hi=1.2)
+
+    def kron(a=K1, b=K2):
+        return O.KroneckerProductLinearOperator(O.DenseLinearOperator(a.clone()), O.DenseLinearOperator(b.clone()))
+    add("KronAddedDiag(ConstantDiag)[2x3]", lambda: O.KroneckerProductAddedDiagLinearOperator(
+        kron(), O.ConstantDiagLinearOperator(torch.tensor([0.7], dtype=F64), 6)), "kpad")
+    add("KronAddedDiag(Diag)[2x3]", lambda d=d6: O.KroneckerProductAddedDiagLinearOperator(kron(), O.DiagLinearOperator(d.clone())), "kpad")
+    add("KronAddedDiag(KronDiag)[2x3]", lambda a=dk2, b=dk3: O.KroneckerProductAddedDiagLinearOperator(
+        kron(), O.KroneckerProductDiagLinearOperator(O.DiagLinearOperator(a.clone()), O.DiagLinearOperator(b.clone()))), "kpad")
+    add("KronAddedDiag(KronConstantDiag)[2x3]", lambda: O.KroneckerProductAddedDiagLinearOperator(
+        kron(), O.KroneckerProductDiagLinearOperator(O.ConstantDiagLinearOperator(torch.tensor([0.8], dtype=F64), 2),
+                                                     O.ConstantDiagLinearOperator(torch.tensor([1.3], dtype=F64), 3))), "kpad")
+    add("SumKronecker[2x3]", lambda a=J1, b=J2: O.SumKroneckerLinearOperator(kron(), kron(a, b)), "sumkron")
     A2, d2 = rand_pd(rng, 5), 0.5 + torch.rand(5, generator=_gen(rng), dtype=F64)
     add("AddedDiag(Dense,Diag)[n=5]", lambda a=A2, d=d2: O.AddedDiagLinearOperator(O.DenseLinearOperator(a.clone()), O.DiagLinearOperator(d.clone())), "addeddiag", tags=("precond",))
     A2c = rand_pd(rng, 6)
@@ -662,10 +742,16 @@ def gen_history(rng, spec, length, with_derive=True, excluded=()):
         elif r < 0.2 and depth > 0:
             hist.append((st, ("back",)))
             depth -= 1
+        elif getattr(spec, "has_sub", False) and r < 0.36:
+            hist.append((st, ("qs", rng.choice(SUB_QUERIES))))
         else:
             q = rng.choice(focus) if rng.random() < 0.7 else rng.choice(qs)
             hist.append((st, ("q", q)))
     return hist
+
+
+SUB_QUERIES = [("to_dense",), ("diagonal",), ("cholesky", False), ("cholesky", True), ("svd",), ("eigh",), ("eigvalsh",), ("solve",),
+               ("logdet",), ("iql",), ("root", "none", None), ("rootinv", "none", None), ("diagz", "none", None), ("sample",)]
 
 
 SM = {"mcs": 1, "frd": True, "flp": True, "fs": True, "mrds": 100}     # Lanczos / CG regime
@@ -727,6 +813,21 @@ def templates(spec):
             t.append([(DF, Q("root", "kw", None)), (DF, Q("root", "none", None)), (SM, ("d", d)), (DF, Q("root", "none", None)), (DF, Q("rootinv", "none", None))])
             t.append([(DF, Q("diagz", "none", None)), (DF, ("d", d)), (DF, Q("root", "none", None)), (DF, Q("rootinv", "none", None)), (DF, Q("solve"))])
             t.append([(DF, ("d", d)), (DF, ("d", d)), (DF, Q("root", "none", None)), (DF, Q("rootinv", "none", None)), (DF, Q("logdet"))])
+    if spec.profile == "sumkron":     # D32: eigendecomposition of the second summand cached by logdet, then the structured inverse root
+        t.append([(DF, Q("logdet")), (DF, Q("rootinv", "kw", "lanczos")), (SM, Q("rootinv", "none", None)), (DF, Q("solve")), (SM, Q("root", "none", None))])
+    if getattr(spec, "has_sub", False):
+        QS = lambda *q: ("qs", tuple(q))  # noqa: E731   query on the shared sub-operator handle
+        t.append([(SM, Q("root", "none", None)), (SM, QS("logdet")), (SM, QS("diagz", "none", None)), (SM, QS("eigh")), (SM, Q("rootinv", "none", None)),
+                  (SM, Q("diagz", "none", None)), (SM, Q("eigh")), (SM, Q("logdet")), (SM, ("d", ("add_jitter",))), (SM, Q("root", "none", None)),
+                  (SM, Q("logdet")), (SM, ("back",)), (SM, QS("svd")), (SM, QS("solve")), (SM, Q("solve"))])
+        t.append([(SM, Q("rootinv", "none", None)), (SM, Q("root", "none", None)), (SM, QS("eigvalsh")), (SM, Q("solve")), (SM, Q("sample")),
+                  (DF, QS("root", "none", None)), (DF, Q("root", "none", None)), (DF, Q("iql")), (SM, Q("iql")), (SM, Q("eigvalsh"))])
+        t.append([(DF, Q("root", "kw", "lanczos")), (DF, Q("rootinv", "kw", "lanczos")), (DF, QS("diagz", "none", None)), (DF, Q("eigh")),
+                  (DF, Q("svd")), (DF, Q("to_dense")), (DF, QS("to_dense")), (DF, QS("logdet")), (DF, Q("logdet"))])
+        t.append([(SM, QS("diagz", "none", None)), (SM, Q("root", "none", None)), (SM, QS("diagz", "none", None)), (SM, QS("root", "none", None)),
+                  (SM, Q("rootinv", "none", None)), (SM, QS("rootinv", "none", None)), (SM, QS("iql")), (SM, Q("svd")), (SM, QS("sample"))])
+        t.append([(SM, Q("svd")), (SM, Q("root", "kw", "svd")), (SM, Q("root", "none", None)), (SM, Q("svd")), (SM, Q("eigh")), (SM, Q("rootinv", "kw", "svd")),
+                  (SM, Q("diagz", "none", None)), (SM, Q("root", "kw", "diagonalization")), (SM, Q("diagz", "none", None)), (SM, Q("solve"))])
     if "precond" in spec.tags:
         t.append([(SM, Q("precond")), (SM, Q("solve")), (SM, Q("precond")), (SM, Q("iql")), (DF, Q("solve")), (SM, Q("inv_quad")), (SM, Q("precond"))])
         t.append([(SM, Q("solve")), (SM, Q("precond")), (SM, ("d", ("add_jitter",))), (SM, Q("solve")), (SM, ("back",)), (SM, Q("solve"))])
@@ -816,8 +917,39 @@ class Runner:
             mlines.append(f"new {prof} {spec.n}")
             mexp.append(None)
         modelled = record and prof is not None
+        snap = {}
         for si, (st, step) in enumerate(hist):
             fr = stack[-1]
+            # --- no cached VALUE may ever be changed in place by a later step (object, sub-operators, parents)
+            new_snap = snapshot_caches([f["op"] for f in stack])
+            for owner, ck, err in mutated_entries(snap, new_snap):
+                fails.append((f"C12/{fr['cls']}/{fr['lineage']}/cached-value-mutated",
+                              f"before step {si}: the value cached under {ck} on a {owner} was modified in place by step {si - 1} "
+                              f"({hist[si - 1][1]}) (max change {err:.3e})"))
+            snap = new_snap
+            is_sub = step[0] == "qs"
+            if is_sub:
+                if "sub" not in fr:
+                    sh = sub_handle(fr["op"])
+                    if sh is None:
+                        fr["sub"] = None
+                    else:
+                        with env(DF):
+                            sA = deep_fresh(sh).to_dense().detach().clone()
+                        env.tap.items = []
+                        ev_ = torch.linalg.eigvalsh(sym(sA))
+                        if not (ev_.min().item() > 1e-3 and (ev_.max() / ev_.min().clamp_min(1e-12)).max().item() < 8.0
+                                and (sA - sA.mT).abs().max().item() < 1e-10):
+                            sh = None       # only SPD handles take the factorization queries
+                    if sh is None:
+                        fr["sub"] = None
+                    else:
+                        fr["sub"] = {"op": sh, "A": sA, "pd": True, "sticky": fr["sticky"], "cls": fr["cls"],
+                                     "lineage": fr["lineage"] + ">sub0", "tainted": fr["tainted"]}
+                if fr["sub"] is None:
+                    continue
+                fr = fr["sub"]
+                step = ("q", step[1])
             op, A = fr["op"], fr["A"]
             n = A.shape[-1]
             rhs = aux["rhs"][:n].expand(*A.shape[:-2], n, 2)
@@ -898,7 +1030,7 @@ class Runner:
                 for u in unknown:
                     chk.corr_break(f"C12/{fr['cls']}/unmodelled-cache-name", f"cache key {u} is not known to the audit", {"key": u})
                 chk.count("q:" + q[0])
-                if modelled:
+                if modelled and not is_sub:
                     mlines.append(q_line(q, st, n))
                     ko = model_profile(op) in KEYS_ONLY
                     mexp.append((" ".join(k for k in keyset(op) if key_name(k) not in UNMODELLED_NAMES) or "-") + " ; "
@@ -992,6 +1124,12 @@ class Runner:
                                  + (" ".join(k for k in keyset(new) if key_name(k) not in UNMODELLED_NAMES) or "-") + " ; *"))
                     if prof2 is None:
                         modelled = False
+        if hist:
+            fr = stack[-1]
+            for owner, ck, err in mutated_entries(snap, snapshot_caches([f["op"] for f in stack])):
+                fails.append((f"C12/{fr['cls']}/{fr['lineage']}/cached-value-mutated",
+                              f"after the last step: the value cached under {ck} on a {owner} was modified in place by step "
+                              f"{len(hist) - 1} ({hist[-1][1]}) (max change {err:.3e})"))
         if record:
             self.lines += mlines
             self.expect += mexp
